@@ -149,8 +149,11 @@ def check_fitted(ctx, c):
         ctx.fail(dict(mech, what="fit_variogram=True!=estimate-then-fit", attr="anis"), f"anis {list(fitted.anis)} vs {list(twin.anis)}")
 
 
+_SLACK = [0.0]  # evaluation accuracy of the covariance of the case at hand (exponential-integral models next to integer orders)
+
+
 def _tol(cond, scale):
-    return 200 * EPS * max(cond, 1.0) * max(scale, 1e-300) + 1e-13 * scale
+    return (200 * EPS + 10 * _SLACK[0]) * max(cond, 1.0) * max(scale, 1e-300) + 1e-13 * scale
 
 
 def _call(b, **kw):
@@ -169,6 +172,10 @@ def _build(ctx, c, **kw):
 
 
 def check_oracle(ctx, c):
+    from gsverif.oracles import cov as ocov
+
+    # 1-ulp differences between the isometrized lags of code and oracle are amplified by the conditioning of the model function
+    _SLACK[0] = ocov.evaluation_slack(c["model"])
     b = _build(ctx, c, structured=c.get("structured", False))
     if b is None:
         return
